@@ -11,7 +11,7 @@ Definition req_head_eqb (a b : req_head) : bool :=
   beq (meth a) (meth b) && beq (target a) (target b) && beq (proto a) (proto b) && Bool.eqb (http11 a) (http11 b)
   && kvs_eqb (fields a) (fields b) && beq (host a) (host b) && beq (ctype a) (ctype b) && beq (ua a) (ua b)
   && Z.eqb (content_length a) (content_length b) && beq (cl_bytes a) (cl_bytes b)
-  && Bool.eqb (conn_close a) (conn_close b) && bl_eqb (trailer a) (trailer b).
+  && Bool.eqb (conn_close a) (conn_close b) && bl_eqb (trailer a) (trailer b) && beq (raw_headers a) (raw_headers b).
 
 Definition resp_head_eqb (a b : resp_head) : bool :=
   Z.eqb (status a) (status b) && beq (status_msg a) (status_msg b) && beq (rproto a) (rproto b)
